@@ -1052,4 +1052,285 @@ theorem restart_getGlobal (mode : Mode) (rt rt' : Runtime) (hwf : WF rt)
     simp only [Storage.getGlobal, (restoreProgVars_frame _ s2).1]
     exact t2 m.name this
 
+/-! ### retain snapshots -/
+
+/-- What `retain_snapshot` stores for a name. -/
+def snapVal (s : Storage) (ms : List GlobalMeta) (n : Nat) : Option Val :=
+  if ms.any (fun m => m.name == n && retainOnWarm m.retain) then
+    (s.getGlobal n).filter Val.retainable
+  else none
+
+theorem aget_retainSnapshotAux (s : Storage) (ms : List GlobalMeta) :
+    ∀ (acc : Snapshot) (n : Nat),
+      aget (retainSnapshotAux s ms acc) n =
+        match snapVal s ms n with
+        | some v => some v
+        | none => aget acc n := by
+  induction ms with
+  | nil => intro acc n; simp [retainSnapshotAux, snapVal]
+  | cons m rest ih =>
+    intro acc n
+    simp only [retainSnapshotAux]
+    by_cases hr : retainOnWarm m.retain = true
+    · simp only [hr, if_true]
+      cases hg : s.getGlobal m.name with
+      | none =>
+        simp only
+        rw [ih]
+        by_cases hn : m.name = n
+        · subst hn; simp [snapVal, hg, Option.filter]
+        · simp [snapVal, hn, hr]
+      | some v =>
+        simp only
+        by_cases hv : v.retainable = true
+        · simp only [hv, if_true]
+          rw [ih]
+          by_cases hn : m.name = n
+          · subst hn
+            simp [snapVal, hr, hg, Option.filter, hv, aget_aset_same]
+            split <;> simp_all
+          · have : (m.name == n) = false := by simp [hn]
+            simp [snapVal, this, aget_aset_ne _ _ _ _ hn]
+        · have hv' : v.retainable = false := by simpa using hv
+          simp only [hv', Bool.false_eq_true, if_false]
+          rw [ih]
+          by_cases hn : m.name = n
+          · subst hn; simp [snapVal, hg, Option.filter, hv']
+          · have : (m.name == n) = false := by simp [hn]
+            simp [snapVal, this]
+    · have hr' : retainOnWarm m.retain = false := by simpa using hr
+      simp only [hr', Bool.false_eq_true, if_false]
+      rw [ih]
+      simp [snapVal, hr']
+
+theorem keys_retainSnapshotAux_nodup (s : Storage) (ms : List GlobalMeta) :
+    ∀ (acc : Snapshot), (keys acc).Nodup → (keys (retainSnapshotAux s ms acc)).Nodup := by
+  induction ms with
+  | nil => intro acc h; simpa [retainSnapshotAux] using h
+  | cons m rest ih =>
+    intro acc h
+    simp only [retainSnapshotAux]
+    split
+    · split
+      · split
+        · exact ih _ (keys_aset_nodup _ _ _ h)
+        · exact ih _ h
+      · exact ih _ h
+    · exact ih _ h
+
+theorem snapVal_of_mem (s : Storage) (ms : List GlobalMeta) (m : GlobalMeta) (hm : m ∈ ms)
+    (hr : retainOnWarm m.retain = true) :
+    snapVal s ms m.name = (s.getGlobal m.name).filter Val.retainable := by
+  unfold snapVal
+  have : ms.any (fun x => x.name == m.name && retainOnWarm x.retain) = true := by
+    rw [List.any_eq_true]; exact ⟨m, hm, by simp [hr]⟩
+  simp [this]
+
+theorem findMeta_of_mem (ms : List GlobalMeta) (hnd : (ms.map (·.name)).Nodup) (m : GlobalMeta)
+    (hm : m ∈ ms) : findMeta ms m.name = some m := by
+  induction ms with
+  | nil => cases hm
+  | cons x rest ih =>
+    simp only [List.map_cons, List.nodup_cons] at hnd
+    rcases List.mem_cons.1 hm with rfl | hm'
+    · simp [findMeta]
+    · have hne : x.name ≠ m.name := fun e => hnd.1 (e ▸ List.mem_map.2 ⟨m, hm', rfl⟩)
+      have : (x.name == m.name) = false := by simp [hne]
+      simp only [findMeta, List.find?_cons, this]
+      exact ih hnd.2 hm'
+
+theorem applySnapshotAux_frame (ms : List GlobalMeta) (snap : Snapshot) :
+    ∀ (s : Storage), (applySnapshotAux ms s snap).instances = s.instances ∧
+      (applySnapshotAux ms s snap).nextId = s.nextId ∧ (applySnapshotAux ms s snap).frames = s.frames := by
+  induction snap with
+  | nil => intro s; simp [applySnapshotAux]
+  | cons p rest ih =>
+    intro s
+    obtain ⟨n, v⟩ := p
+    simp only [applySnapshotAux]
+    split
+    · split
+      · have := ih (s.setGlobal n v); simpa [Storage.setGlobal] using this
+      · exact ih s
+    · exact ih s
+
+theorem applySnapshotAux_not_mem (ms : List GlobalMeta) (snap : Snapshot) (n : Nat) :
+    ∀ (s : Storage), n ∉ keys snap → (applySnapshotAux ms s snap).getGlobal n = s.getGlobal n := by
+  induction snap with
+  | nil => intro s _; simp [applySnapshotAux]
+  | cons p rest ih =>
+    intro s hn
+    obtain ⟨k, v⟩ := p
+    simp only [keys, List.map_cons, List.mem_cons, not_or] at hn
+    have hn2 : n ∉ keys rest := by simpa [keys] using hn.2
+    simp only [applySnapshotAux]
+    split
+    · split
+      · rw [ih _ hn2, getGlobal_setGlobal_ne _ _ _ _ (fun e => hn.1 e.symm)]
+      · exact ih s hn2
+    · exact ih s hn2
+
+/-- `apply_retain_snapshot` for one name (snapshot keys are distinct). -/
+theorem applySnapshotAux_spec (ms : List GlobalMeta) (snap : Snapshot) (n : Nat) :
+    ∀ (s : Storage), (keys snap).Nodup →
+      (applySnapshotAux ms s snap).getGlobal n =
+        match aget snap n with
+        | some v =>
+          if (match findMeta ms n with | some m => retainOnWarm m.retain | none => false) && v.retainable
+          then some v else s.getGlobal n
+        | none => s.getGlobal n := by
+  induction snap with
+  | nil => intro s _; simp [applySnapshotAux, aget]
+  | cons p rest ih =>
+    intro s hnd
+    obtain ⟨k, v⟩ := p
+    simp only [keys, List.map_cons, List.nodup_cons] at hnd
+    by_cases hk : k = n
+    · subst hk
+      have hn2 : k ∉ keys rest := by simpa [keys] using hnd.1
+      simp only [applySnapshotAux, aget, if_true]
+      cases hf : findMeta ms k with
+      | none => simp [applySnapshotAux_not_mem ms rest k s hn2]
+      | some m =>
+        simp only
+        by_cases hc : (retainOnWarm m.retain && v.retainable) = true
+        · simp only [hc, if_true]
+          rw [applySnapshotAux_not_mem ms rest k _ hn2]; simp
+        · simp only [hc, Bool.false_eq_true, if_false]
+          exact applySnapshotAux_not_mem ms rest k s hn2
+    · simp only [applySnapshotAux, aget, hk, if_false]
+      have hnd2 : (keys rest).Nodup := by simpa [keys] using hnd.2
+      split
+      · split
+        · rw [ih _ hnd2]
+          cases aget rest n with
+          | none => simp [getGlobal_setGlobal_ne _ _ _ _ hk]
+          | some w => simp [getGlobal_setGlobal_ne _ _ _ _ hk]
+        · exact ih s hnd2
+      · exact ih s hnd2
+
+/-! ### concrete witnesses (the harness replays the same projects on the real runtime, cases 0-5) -/
+
+namespace W
+
+def iX00 : IoAddr := { area := .input, size := .bit, byte := 0, bit := 0 }
+def qX00 : IoAddr := { area := .output, size := .bit, byte := 0, bit := 0 }
+def mW0 : IoAddr := { area := .memory, size := .word, byte := 0, bit := 0 }
+def l (n : Nat) : Target := { scope := .l, name := n }
+def g (n : Nat) : Target := { scope := .g, name := n }
+def plain (n : Nat) (pol : Policy) (v : Val) : PVarDecl := { var := { name := n, retain := pol, init := .plain v } }
+def cyc (rt : Runtime) : Runtime := (cycle rt none).1
+def cycN : Nat → Runtime → Runtime
+  | 0, rt => rt
+  | n + 1, rt => cycN n (cyc rt)
+def restartD (m : Mode) (rt : Runtime) : Runtime := (restart m rt).toOption.getD rt
+def num? (o : Option Val) : Option Int := o.bind Val.numVal?
+
+/-- Witness 0: `inp AT %IX0.0 : BOOL; outp AT %QX0.0 : BOOL; outp := inp;` (names: Main 0, inp 1,
+outp 2). -/
+def src0 : Source :=
+  { programs := [{ name := 0,
+                   vars := [{ plain 1 .unspecified (.num 1 0) with addr := some (iX00, 1) },
+                            { plain 2 .unspecified (.num 1 0) with addr := some (qX00, 1) }],
+                   body := [.simple (.cpy (l 2) (l 1))] }] }
+
+/-- input 1, cycle, restart, input 0, cycle: the output image afterwards. -/
+def run0 (m : Mode) : Option (List Nat × Nat) :=
+  (build src0).map fun rt =>
+    let rt := cyc (setDirect rt iX00 1)
+    let rt := restartD m rt
+    let rt := cyc (setDirect rt iX00 0)
+    (rt.io.outputs, rt.deadBindings)
+
+/-- the same inputs on a freshly built runtime -/
+def fresh0 : Option (List Nat × Nat) :=
+  (build src0).map fun rt =>
+    let rt := cyc (setDirect rt iX00 0)
+    (rt.io.outputs, rt.deadBindings)
+
+/-- Witness 1: `trig : BOOL := TRUE; TASK T0 (SINGLE := trig, INTERVAL := 0); PROGRAM P0 WITH T0`
+with `runs := runs + 1` (names: trig 10, T0 20, P0 0, runs 1). -/
+def src1 : Source :=
+  { globals := [{ name := 10, retain := .unspecified, init := .value (.num 1 1) }],
+    tasks := [{ name := 20, interval := 0, single := some 10, priority := 1 }],
+    programs := [{ name := 0, vars := [plain 1 .unspecified (.num 3 0)],
+                   body := [.simple (.inc (l 1) 1)], task := some 20 }] }
+
+def run1 : Option (Option Int) :=
+  (build src1).map fun rt => num? ((cyc (restartD .cold (cyc rt))).progVar 0 1)
+
+def fresh1 : Option (Option Int) :=
+  (build src1).map fun rt => num? ((cyc rt).progVar 0 1)
+
+/-- Witness 2: `gm AT %MW0 : INT; gm := gm + 1` (names: gm 10, P0 0). -/
+def src2 : Source :=
+  { globals := [{ name := 10, retain := .unspecified, init := .value (.num 3 0), addr := some (mW0, 3) }],
+    programs := [{ name := 0, vars := [], body := [.simple (.inc (g 10) 1)] }] }
+
+def run2 : Option (Option Int) :=
+  (build src2).map fun rt => num? ((cyc (restartD .cold (cycN 3 rt))).storage.getGlobal 10)
+
+def fresh2 : Option (Option Int) :=
+  (build src2).map fun rt => num? ((cyc rt).storage.getGlobal 10)
+
+/-- Witness 3: RETAIN global `gr` (10) and program-level RETAIN `r := 7` (P0 0, r 1), both
+incremented every cycle; store configured. -/
+def src3 : Source :=
+  { globals := [{ name := 10, retain := .retain, init := .value (.num 3 0) }],
+    programs := [{ name := 0, vars := [plain 1 .retain (.num 3 7)],
+                   body := [.simple (.inc (l 1) 1), .simple (.inc (g 10) 1)] }] }
+
+/-- two cycles, warm restart: (r, gr) -/
+def warm3 : Option (Option Int × Option Int) :=
+  (build src3).map fun rt =>
+    let rt := restartD .warm (cycN 2 (setRetainStore rt false))
+    (num? (rt.progVar 0 1), num? (rt.storage.getGlobal 10))
+
+/-- two cycles, save, new runtime + store + load: (r, gr) -/
+def power3 : Option (Option Int × Option Int) :=
+  (build src3).bind fun rt =>
+    let rt := cycN 2 (setRetainStore rt false)
+    let disk := saveRetainStore rt none
+    (build src3).map fun fr =>
+      let fr := loadRetainStore (setRetainStore fr false) disk
+      (num? (fr.progVar 0 1), num? (fr.storage.getGlobal 10))
+
+/-- Witness 4: FB `Fb0` (30) with members inc 31, tot 32, `RETAIN kept := 7` 33, `NON_RETAIN nr`
+34; RETAIN global `gfb` (10); program P0 (0) with `RETAIN rfb` (1) and unqualified `ufb` (2). -/
+def fb4 : FbDecl :=
+  { fb := { name := 30,
+            members := [(31, .num 3 0), (32, .num 3 0), (33, .num 3 7), (34, .num 3 0)],
+            body := [.inc (l 33) 1, .inc (l 34) 1, .cpy (l 32) (l 31)] } }
+
+def src4 : Source :=
+  { fbs := [fb4],
+    globals := [{ name := 10, retain := .retain, init := .fb 30 }],
+    programs := [{ name := 0,
+                   vars := [{ var := { name := 1, retain := .retain, init := .fb 30 } },
+                            { var := { name := 2, retain := .unspecified, init := .fb 30 } }],
+                   body := [.call .l 1 [(31, .num 3 2)], .call .l 2 [(31, .num 3 2)],
+                            .call .g 10 [(31, .num 3 2)]] }] }
+
+/-- two cycles, warm restart: (P0.rfb.kept, gfb.nr) -/
+def warm4 : Option (Option Val × Option Val) :=
+  (build src4).map fun rt =>
+    let rt := restartD .warm (cycN 2 rt)
+    (rt.readProgPath 0 1 (some 33), rt.readGlobalPath 10 (some 34))
+
+/-- the same members before the restart -/
+def before4 : Option (Option Val × Option Val) :=
+  (build src4).map fun rt =>
+    let rt := cycN 2 rt
+    (rt.readProgPath 0 1 (some 33), rt.readGlobalPath 10 (some 34))
+
+/-- Witness 5: `w : INT` (P0 0, w 1) with `VAR_CONFIG P0.w : INT := 300`. -/
+def src5 : Source :=
+  { programs := [{ name := 0, vars := [plain 1 .unspecified (.num 3 0)], body := [] }],
+    configInits := [({ scope := .p 0, name := 1 }, .num 3 300)] }
+
+def fresh5 : Option (Option Int) := (build src5).map fun rt => num? (rt.progVar 0 1)
+def cold5 : Option (Option Int) := (build src5).map fun rt => num? ((restartD .cold rt).progVar 0 1)
+
+end W
+
 end TrustVerif.C09
